@@ -2,13 +2,14 @@
 from .common import *
 
 PROVED = ['find_omega_general']
+CALLEES = ['form_omega_mat', 'form_omega_mat_general', 'quart_to_omega']   # the rotation matrices the solvers are judged against
 BOUNDED = ['find_omega', 'find_omega_quart', 'find_omega_wedge']
 
 
 def units(tier):
     us = []
     for m in ('tools', 'laue'):
-        for f in PROVED:
+        for f in PROVED + CALLEES:
             us.append(FuncUnit(m, f))
         for f in PROVED + BOUNDED:
             us.append(RuntimeContractUnit(m, f, 400, 20000))
